@@ -90,8 +90,9 @@ const (
 )
 
 type ctl struct {
-	kind  ctxKind
-	label string
+	kind    ctxKind
+	label   string
+	isRange bool
 }
 
 type fctx struct {
@@ -129,8 +130,9 @@ type gen struct {
 	tagN          int
 	inExprClosure int
 	inExprCall    int
-	noCalls       int // >0: expressions must not contain calls
-	smallLits     int // >0: integer literals stay small (inside map literals when maplit:int:above-int32 is avoided)
+	rangeNext     bool // the next loop body pushed belongs to a range loop
+	noCalls       int  // >0: expressions must not contain calls
+	smallLits     int  // >0: integer literals stay small (inside map literals when maplit:int:above-int32 is avoided)
 	noPanicCalls  int
 }
 
